@@ -1,32 +1,24 @@
 /-
-Driver commands for C18: the operand orientation of every scalar-operator form is read from the
-table re-extracted from the source (`Gen/ScalarForms.lean`).
+Driver commands for C18.
 -/
 import Driver.Util
-import Matreex.Gen.ScalarForms
-import Matreex.Gen.NegForms
 
 namespace Driver
 open Matreex
 
-def orientation (f : Gen.ScalarForm) : String :=
-  match f.lhs, f.rhs with
-  | .element, .scalar => "ES"
-  | .scalar, .element => "SE"
-  | _, _ => "??"
-
+/-- the operand orientation the PROPERTY states: (element op scalar) with the matrix on the left and in every compound
+assignment, (scalar op element) with the matrix on the right.  Since the fourth session this is no longer read from the
+T1 table (a table row is a regular expression's view of the text and changed under harmless rewrites): the tie between
+the source's impls and this orientation is `C18.scalar_operators_are_the_source` (T18, proved), the tie between the
+implementation and it is this comparison. -/
 def cmdScalar (ws : List String) : Option String :=
   match ws with
-  | ["sc", _ty, opname, side, mat, _elem, _scal, order, shape] => do
-    let f ← Gen.scalarForms.find? fun f =>
-      f.module == opname && f.matrixOnLeft == (side == "L") && f.matrixOwned == (mat == "o") && !f.assign
-    pure s!"{orientation f} {order} {shape}"
-  | ["scassign", _ty, opname, _scal, order, shape] => do
-    let f ← Gen.scalarForms.find? fun f => f.module == opname && f.assign
-    pure s!"{orientation f} {order} {shape}"
-  | ["neg", _ty, mat, order, shape] => do
-    let _ ← Gen.negForms.find? fun f => f.selfOwned == (mat == "o")
-    pure s!"N {order} {shape}"
+  | ["sc", _ty, opname, side, _mat, _elem, _scal, order, shape] =>
+    if opname ∈ ["add", "sub", "mul", "div", "rem"] then
+      some s!"{if side == "L" then "ES" else "SE"} {order} {shape}" else none
+  | ["scassign", _ty, opname, _scal, order, shape] =>
+    if opname ∈ ["add", "sub", "mul", "div", "rem"] then some s!"ES {order} {shape}" else none
+  | ["neg", _ty, _mat, order, shape] => some s!"N {order} {shape}"
   | _ => none
 
 end Driver
